@@ -190,7 +190,15 @@ func applyRdOp(regs *packet.Registers, resp packet.Response, start int, o rdOp, 
 		}
 		return renderFieldValues(vals, e)
 	}
-	return fmt.Sprintf("%#v err=%v", v, err != nil)
+	out := fmt.Sprintf("%#v err=%v", v, err != nil)
+	if b, ok := v.([]byte); ok && o.Kind >= 20 && o.Kind <= 22 && o.Bit%2 == 1 {
+		// the register accessors hand out the caller's own copy of the bytes: the caller goes on to use it as scratch
+		// memory (reverses it for display, masks it); that is no business of the response's
+		for i := range b {
+			b[i] ^= 0xFF
+		}
+	}
+	return out
 }
 
 func parseRegsResponse(fr Framing, frame []byte) (packet.Response, error) {
